@@ -145,6 +145,9 @@ func (cuckooFilter *CuckooFilterRedis) Insert(data []byte, destructive bool) boo
 				cuckooFilter.incrLength()
 				return true
 			}
+			currFingerPrint = prevFingerPrint
+			index = newIndex
+			indexKey = newIndexKey
 		}
 		if !destructive {
 			for i := len(items) - 1; i >= 0; i-- {
